@@ -678,6 +678,7 @@ def gen_lean(M, classified):
     if len(M.fids) >= 8191:
         raise Unrecognised("more than 8190 functions: the row encoding needs a wider digit")
     codes, prows = [], []
+    code_row, prot_row = {}, {}         # (callee id, caller id) -> index among the codes / the protected rows
     for u in M.fids:
         es = M.edges.get(u)
         if not es:
@@ -688,9 +689,13 @@ def gen_lean(M, classified):
             n = 0
             for d in reversed([M.fidx[u] + 1] + [c + 1 for c in plain[i:i + 24]]):
                 n = n * 8192 + d
+            for c in plain[i:i + 24]:
+                code_row[(M.fidx[u], c)] = len(codes)
             codes.append(hex(n))
         if prot:
             ps = ", ".join("⟨%d, %s, [%s]⟩" % (c, lean_ctx(M, hls), ", ".join(str(M.tidx[b]) for b in bl)) for (c, hls, bl) in prot)
+            for (c, hls, bl) in prot:
+                prot_row.setdefault((M.fidx[u], c), len(prows))
             prows.append("⟨%d, [], [%s]⟩" % (M.fidx[u], ps))
     chunks = []
     per = 400
@@ -712,7 +717,11 @@ def gen_lean(M, classified):
         for u in M.reach[t]:
             m |= 1 << M.fidx[u]
         masks.append(hex(m))
-    L.append("def cert : Cert := ⟨[\n  " + ",\n  ".join(masks) + "]⟩")
+    anym = 0
+    for t in M.tlist:
+        for u in M.reach[t]:
+            anym |= 1 << M.fidx[u]
+    L.append("def cert : Cert := ⟨[\n  " + ",\n  ".join(masks) + "],\n  " + hex(anym) + "⟩")
     L.append("")
     L.append("/-- sites whose exception can reach an entry point along some call chain -/")
     L.append("def alarmIds : List Nat := [" + ", ".join(str(a["site"]["id"]) for a in M.alarms) + "]")
@@ -722,8 +731,28 @@ def gen_lean(M, classified):
     L.append("def findingIds : List Nat := [" + ", ".join(map(str, find_ids)) + "]")
     L.append("/-- alarms carried as explicit assumptions (corpus/C13/alarms.json, class open) -/")
     L.append("def openIds : List Nat := [" + ", ".join(map(str, open_ids)) + "]")
-    L.append("def findingPaths : List Path := [" + ",\n  ".join(
-        "⟨%d, [%s]⟩" % (c["alarm"]["site"]["id"], ", ".join(str(M.fidx[f]) for f in c["alarm"]["path"])) for c in classified if c["cls"] == "finding") + "]")
+    # one checked chain per finding key (the shortest)
+    best = {}
+    for c in classified:
+        if c["cls"] == "finding":
+            k = c["rule"]["finding"]
+            if k not in best or len(c["alarm"]["path"]) < len(best[k]["alarm"]["path"]):
+                best[k] = c
+    plines = []
+    for k in sorted(best):
+        a = best[k]["alarm"]
+        ids = [M.fidx[f] for f in a["path"]]
+        hops = []
+        for g, f in zip(ids, ids[1:]):
+            if (g, f) in code_row:
+                idx = code_row[(g, f)]
+            elif (g, f) in prot_row:
+                idx = len(codes) + prot_row[(g, f)]
+            else:
+                raise Unrecognised("internal: no row for edge of a finding path")
+            hops.append("(%d, %d)" % (f, idx))
+        plines.append("⟨%d, %d, [%s]⟩" % (a["site"]["id"], ids[0], ", ".join(hops)))
+    L.append("def findingPaths : List Path := [" + ",\n  ".join(plines) + "]")
     L.append("")
     acts = dict(finding=".finding", swallow=".swallow", rethrow=".rethrow", exit=".exit")
     for f in M.funnels:
@@ -753,3 +782,539 @@ def translate(ctx):
     cl = classify_alarms(M)
     ctx.write_gen("ExceptionFunnel", gen_lean(M, cl))
     return M, cl
+
+
+# ================================================================================================
+#  (b) totality of the modelled kernels
+# ================================================================================================
+
+# kernels whose Lean definitions are accepted only with termination proofs (structural recursion, explicit fuel or
+# `termination_by`); see docs/C13.md for what each one models
+KERNEL_MODULES = [
+    "Cppcheck.Model.Match", "Cppcheck.Model.Glob", "Cppcheck.Model.PathMatch", "Cppcheck.Model.PathCanon", "Cppcheck.Model.FileLister",
+    "Cppcheck.Model.Links", "Cppcheck.Model.AstLadder", "Cppcheck.Model.AstUnary", "Cppcheck.Model.AstStore", "Cppcheck.Model.Configs",
+    "Cppcheck.Model.Serialize", "Cppcheck.Model.Shell", "Cppcheck.Model.GccArgs", "Cppcheck.Model.Suppress", "Cppcheck.Model.SuppressParse",
+    "Cppcheck.Model.LibValid", "Cppcheck.Model.MathLit", "Cppcheck.Model.CharLit", "Cppcheck.Model.Trunc", "Cppcheck.Model.VarMap",
+    "Cppcheck.Model.ScopeProg", "Cppcheck.Model.Ctu", "Cppcheck.Model.XmlEsc", "Cppcheck.Model.XmlWf", "Cppcheck.Model.Template",
+    "Cppcheck.Model.Dedup", "Cppcheck.Model.Exec", "Cppcheck.Model.ExcFunnel",
+]
+PARTIAL_RE = re.compile(r"^\s*(?:@\[[^\]]*\]\s*)?(?:private\s+|protected\s+)?(?:partial|unsafe)\s+(?:def|instance|abbrev)\b|@\[\s*(?:extern|implemented_by)\b|\bdecreasing_by\s+(?:sorry|admit)\b", re.M)
+
+
+def totality(ctx, res):
+    mods = [m for m in KERNEL_MODULES if os.path.exists(os.path.join(core.LEAN, *m.split(".")) + ".lean")]
+    missing = [m for m in KERNEL_MODULES if m not in mods]
+    ok, log = ctx.lake(mods)
+    res.checker_cmds.append("cd /verif/lean && lake build " + " ".join(mods))
+    bad = core.grep_forbidden(core.lean_files_of(mods))
+    for p in core.lean_files_of(mods):
+        text = open(p, encoding="utf-8", errors="replace").read()
+        text = re.sub(r"--[^\n]*", "", text)
+        text = re.sub(r'"([^"\\]|\\.)*"', '""', text)
+        for m in PARTIAL_RE.finditer(text):
+            bad.append("%s: %s" % (os.path.basename(p), m.group(0).strip()))
+    res.oblig("totality:modelled-kernels-build-with-termination-proofs", ok and not bad and not missing, "totality",
+              ("missing modules: %s\n" % missing if missing else "") + ("\n".join(bad) if bad else "") + ("" if ok else log[-2500:]))
+    res.extra["kernel_modules"] = len(mods)
+
+
+# ================================================================================================
+#  (c) the real binary: corpus, generators, P_impl
+# ================================================================================================
+
+SAN_RE = re.compile(r"ERROR: AddressSanitizer|ERROR: LeakSanitizer|runtime error:|SUMMARY: (?:Address|UndefinedBehavior)Sanitizer|AddressSanitizer:DEADLYSIGNAL")
+TERM_RE = re.compile(r"terminate called after throwing an instance of '([^']+)'(?:\s*what\(\):\s*([^\n]*))?")
+NORMAL_STATUS = (0, 1)
+
+
+def private_bin(ctx, variant):
+    """a private copy of the built binary (other checks may relink the shared one while we run)"""
+    d = os.path.join(ctx.tmp, "bin-" + variant)
+    exe = os.path.join(d, "cppcheck")
+    if os.path.exists(exe):
+        return exe
+    os.makedirs(d, exist_ok=True)
+    src = build_repo.cppcheck_bin(variant)
+    for attempt in range(20):
+        try:
+            shutil.copy2(src, exe)
+            break
+        except OSError:
+            time.sleep(0.5)
+    else:
+        raise core.CheckBroken("cannot copy " + src)
+    for sub in ("cfg", "platforms", "addons"):
+        os.symlink(os.path.join(REPO, sub), os.path.join(d, sub))
+    return exe
+
+
+_case_no = [0]
+
+
+def run_case(ctx, exe, files, args, timeout):
+    """files: {relative name: bytes}; runs cppcheck in a fresh directory.  Returns outcome dict."""
+    _case_no[0] += 1
+    d = os.path.join(ctx.tmp, "case-%d-%d" % (os.getpid(), _case_no[0]))
+    os.makedirs(d, exist_ok=True)
+    try:
+        for name, data in files.items():
+            p = os.path.join(d, name)
+            os.makedirs(os.path.dirname(p), exist_ok=True)
+            with open(p, "wb") as f:
+                f.write(data if isinstance(data, bytes) else data.encode("latin-1", "replace"))
+        env = dict(os.environ)
+        env["ASAN_OPTIONS"] = "detect_leaks=0:abort_on_error=0:exitcode=97:allocator_may_return_null=1:detect_stack_use_after_return=0"
+        env["UBSAN_OPTIONS"] = "print_stacktrace=0:halt_on_error=1:exitcode=98"
+        t = time.time()
+        try:
+            r = subprocess.run([exe] + list(args), cwd=d, stdout=subprocess.PIPE, stderr=subprocess.PIPE, timeout=timeout, env=env,
+                               stdin=subprocess.DEVNULL)
+            rc, out, err, to = r.returncode, r.stdout, r.stderr, False
+        except subprocess.TimeoutExpired as ex:
+            rc, out, err, to = None, ex.stdout or b"", ex.stderr or b"", True
+        dt = time.time() - t
+        err_t = (err or b"").decode("latin-1")
+        o = dict(rc=rc, timeout=to, dt=round(dt, 2), stderr=err_t[-1500:], stdout=(out or b"").decode("latin-1")[-400:])
+        m = TERM_RE.search(err_t)
+        if to:
+            o["kind"] = "timeout"
+        elif SAN_RE.search(err_t):
+            o["kind"] = "sanitizer"
+            mm = re.search(r"(ERROR: AddressSanitizer: [\w-]+|runtime error: [^\n]{0,80})", err_t)
+            o["detail"] = mm.group(1) if mm else ""
+        elif m:
+            o["kind"] = "uncaught"
+            o["detail"] = m.group(1) + ("|" + (m.group(2) or "").strip() if m.group(2) else "")
+        elif rc is not None and rc < 0:
+            o["kind"] = "signal"
+            o["detail"] = str(-rc)
+        elif rc not in NORMAL_STATUS:
+            o["kind"] = "status"
+            o["detail"] = str(rc)
+        else:
+            o["kind"] = "ok"
+        return o
+    finally:
+        shutil.rmtree(d, ignore_errors=True)
+
+
+def load_cases():
+    p = os.path.join(CORPUS, "cases.json")
+    return json.load(open(p))["cases"] if os.path.exists(p) else []
+
+
+# signatures of the known findings: a failing generated input is attributed to a finding only if all given regexes match
+SIGNATURES = {
+    "polyspace-range-out-of-range": dict(kind="uncaught", detail=r"std::out_of_range\|stoi", input=r"polyspace"),
+    "json-nonfinite-number": dict(kind="uncaught", detail=r"std::overflow_error", args=r"--(addon|project)=\S*\.json"),
+    "define-option-macro-error": dict(kind="uncaught", detail=r"simplecpp::Macro::Error", args=r"(^| )-D"),
+    "json-entry-type-mismatch": dict(kind="uncaught", detail=r"std::runtime_error\|.*type mismatch! call is<type>", args=r"--project=\S*\.json"),
+    "vcxproj-condition-unlinked-bracket": dict(kind="signal", detail=r"11", args=r"--project=\S*\.vcxproj", input=r"Condition=\"[^\"]*\["),
+    "vcxproj-condition-internalerror": dict(kind="uncaught", detail=r"InternalError", args=r"--project=\S*\.vcxproj", input=r"Condition="),
+    "gui-project-library-comma": dict(kind="uncaught", detail=r"std::runtime_error\|handling of multiple libraries", args=r"--project=\S*\.cppcheck"),
+    "suppress-xml-non-numeric": dict(kind="uncaught", detail=r"std::runtime_error\|converting '.*' to integer failed", args=r"--suppress-xml="),
+    "report-type-guideline-stoi": dict(kind="uncaught", detail=r"std::(invalid_argument|out_of_range)\|stoi", args=r"--report-type=misra"),
+}
+
+
+def attribute(files, args, o):
+    """finding key whose signature the failing case matches, else None"""
+    a = " ".join(args)
+    inp = b"\n".join(v if isinstance(v, bytes) else v.encode("latin-1", "replace") for v in files.values()).decode("latin-1")
+    for key, sig in SIGNATURES.items():
+        if sig["kind"] != o["kind"]:
+            continue
+        if not re.search(sig["detail"], o.get("detail", "")):
+            continue
+        if "args" in sig and not re.search(sig["args"], a):
+            continue
+        if "input" in sig and not re.search(sig["input"], inp):
+            continue
+        return key
+    return None
+
+
+def hexfiles(files):
+    return dict((k, (v if isinstance(v, bytes) else v.encode("latin-1", "replace")).hex()) for k, v in files.items())
+
+
+# ---- generators ---------------------------------------------------------------------------------
+
+STDS = ["c89", "c99", "c11", "c17", "c23", "c++03", "c++11", "c++14", "c++17", "c++20", "c++23", "c++26"]
+PLATFORMS = ["unix32", "unix64", "win32A", "win32W", "win64", "native", "avr8", "elbrus-e1cp", "pic8", "mips32", "arm32-wchar_t2", "unspecified"]
+LIBS = ["std", "posix", "gnu", "windows", "qt", "boost", "googletest", "zlib", "avr", "sqlite3", "openssl", "libcurl", "wxwidgets", "gtk"]
+
+
+def gen_options(rng, lang):
+    o = ["-q"]
+    if rng.random() < 0.7:
+        o.append("--language=" + lang)
+    if rng.random() < 0.5:
+        o.append("--std=" + rng.choice(STDS))
+    if rng.random() < 0.4:
+        o.append("--platform=" + rng.choice(PLATFORMS))
+    for l in rng.sample(LIBS, rng.choice([0, 0, 1, 2])):
+        o.append("--library=" + l)
+    if rng.random() < 0.6:
+        o.append("--enable=" + rng.choice(["all", "all", "style", "warning,performance,portability", "information", "unusedFunction"]))
+    if rng.random() < 0.4:
+        o.append("--inconclusive")
+    if rng.random() < 0.2:
+        o.append("--check-level=exhaustive")
+    if rng.random() < 0.15:
+        o.append("--debug-warnings")
+    if rng.random() < 0.1:
+        o.append("--inline-suppr")
+    if rng.random() < 0.1:
+        o.append("--max-configs=" + rng.choice(["1", "2", "50"]))
+    if rng.random() < 0.1:
+        o.append("--force")
+    for _ in range(rng.choice([0, 0, 0, 1, 2])):
+        nm = rng.choice(["A", "DEBUG", "X", "__cplusplus", "_WIN32", "NDEBUG", "f(x)", "M(a,b)", "V(...)"])
+        val = rng.choice(["", "=1", "=0", "=x+1", "=\"s\"", "=(", "=a##b", "=#x", "=__VA_ARGS__"])
+        if "__VA_OPT__" in val:
+            continue
+        o.append(rng.choice(["-D", "-U"]) + nm + (val if o and not o[-1].startswith("-U") else ""))
+        if o[-1].startswith("-U"):
+            o[-1] = "-U" + nm.split("(")[0]
+    return o
+
+
+def source_seeds():
+    seeds = []
+    for pat in ("samples/*/*.c", "samples/*/*.cpp", "test/cfg/*.c", "test/cfg/*.cpp", "test/cli/*/*.c", "test/cli/*/*.cpp", "test/cli/*/*.h"):
+        seeds += glob.glob(os.path.join(REPO, pat))
+    return sorted(p for p in seeds if os.path.getsize(p) < 400000)
+
+
+NEST = [("(", ")"), ("{", "}"), ("[", "]"), ("<", ">"), ("((", "))"), ("{(", ")}"), ("a<", ">"), ("if(x){", "}"), ("f(", ")"), ("#if 1\n", "\n#endif\n"),
+        ("x?", ":0"), ("!", ""), ("*", ""), ("sizeof(", ")"), ("[]{", "}()"), ("template<class T> struct A{", "};"), ("namespace N{", "}"),
+        ("try{", "}catch(...){}"), ("a=", ""), ("a,", ""), ("-", ""), ("(int)", ""), ("a->", ""), ("a::", "")]
+
+
+def gen_source(rng, seeds):
+    """(name, bytes, description)"""
+    k = rng.random()
+    lang = rng.choice(["c", "c++"])
+    ext = ".c" if lang == "c" else ".cpp"
+    if k < 0.5:
+        p = rng.choice(seeds)
+        data = open(p, "rb").read()
+        lines = data.split(b"\n")
+        if len(lines) > 80:
+            a = rng.randrange(0, len(lines) - 40)
+            lines = lines[a:a + rng.randrange(20, 80)]
+        data = b"\n".join(lines)
+        ba = bytearray(data)
+        nmut = rng.choice([1, 2, 4, 8, 16])
+        desc = "mutate:%s" % os.path.basename(p)
+        for _ in range(nmut):
+            if not ba:
+                break
+            m = rng.random()
+            i = rng.randrange(len(ba))
+            if m < 0.3:
+                ba[i] = rng.randrange(256)
+            elif m < 0.5:
+                ba[i] = rng.choice(b"(){}[]<>;,:?#\"'\\*&=+-/!%~^|.\n\x00 ")
+            elif m < 0.65:
+                del ba[i:i + rng.randrange(1, 40)]
+            elif m < 0.8:
+                j = rng.randrange(len(ba))
+                ba[i:i] = ba[j:j + rng.randrange(1, 60)]
+            elif m < 0.9:
+                ba[i:i] = rng.choice([b"#define ", b"#if ", b"#else\n", b"#endif\n", b"template<", b"operator", b"typedef ", b"using ", b"decltype(", b"case ",
+                                      b"__attribute__((", b"asm(", b"0x", b"1e", b"'\\", b"\"\\", b"R\"(", b"??/", b"\\\n", b"/*", b"//", b"->*", b"...", b"::", b"<=>", b"goto ", b"enum class ", b"requires "])
+            else:
+                del ba[i:]
+        return ("m" + ext, bytes(ba), lang, desc)
+    if k < 0.7:
+        op, cl = rng.choice(NEST)
+        n = rng.choice([10, 100, 500, 2000, 5000])
+        core_ = rng.choice(["0", "x", "", "1+", "a b"])
+        body = op * n + core_ + cl * (n if rng.random() < 0.7 else rng.randrange(0, n))
+        wrap = rng.choice(["int f(){return %s;}", "%s", "void f(){%s;}", "int a=%s;", "#define M %s\nM", "struct S{int x[%s];};"])
+        return ("n" + ext, (wrap % body + "\n").encode(), lang, "nest:%s*%d" % (op.strip(), n))
+    if k < 0.8:
+        n = rng.choice([1000, 100000, 1000000])
+        tok = rng.choice(["a" * n, "1" * n, "\"" + "x" * n + "\"", "0x" + "f" * n, "1." + "0" * n + "e" + "9" * 50, "'" + "a" * n + "'", "/*" + "*" * n, "L\"" + "\\x41" * (n // 4) + "\"",
+                          "#define A " + "A " * (n // 2), "#include \"" + "x" * n + "\""])
+        wrap = rng.choice(["int x = %s;\n", "%s\n", "void f(){ g(%s); }\n"])
+        return ("h" + ext, (wrap % tok).encode(), lang, "huge-token:%d" % n)
+    if k < 0.9:
+        p = rng.choice(seeds)
+        data = open(p, "rb").read()
+        cut = rng.randrange(0, min(len(data), 6000) + 1)
+        return ("t" + ext, data[:cut], lang, "truncate:%s@%d" % (os.path.basename(p), cut))
+    n = rng.randrange(1, 400)
+    return ("r" + ext, bytes(rng.randrange(256) for _ in range(n)), lang, "random-bytes:%d" % n)
+
+
+def mutate_text(rng, data, extra_tokens):
+    ba = bytearray(data)
+    for _ in range(rng.choice([1, 1, 2, 3, 6])):
+        if not ba:
+            break
+        i = rng.randrange(len(ba))
+        m = rng.random()
+        if m < 0.25:
+            ba[i] = rng.randrange(256)
+        elif m < 0.45:
+            del ba[i:i + rng.randrange(1, 30)]
+        elif m < 0.6:
+            j = rng.randrange(len(ba))
+            ba[i:i] = ba[j:j + rng.randrange(1, 50)]
+        elif m < 0.9:
+            ba[i:i] = rng.choice(extra_tokens)
+        else:
+            del ba[i:]
+    return bytes(ba)
+
+
+JSON_TOK = [b"1e999", b"-1e999", b"null", b"true", b"[", b"]", b"{", b"}", b"\"\"", b"1", b"\"x\":", b",", b"\\u0000", b"\\ud800", b"99999999999999999999", b"[[[[[[[[", b"0.5", b"-"]
+XML_TOK = [b"<", b">", b"/>", b"=\"", b"\"", b"&amp;", b"&#0;", b"&#x110000;", b"<!--", b"<![CDATA[", b"abc", b"-1", b"99999999999999999999", b"0x10", b"1.5", b" ", b"<a>", b"</a>", b"[", b"("]
+VCX = '''<?xml version="1.0" encoding="utf-8"?>
+<Project DefaultTargets="Build" ToolsVersion="4.0" xmlns="http://schemas.microsoft.com/developer/msbuild/2003">
+  <ItemGroup Label="ProjectConfigurations">
+    <ProjectConfiguration Include="Debug|Win32"><Configuration>Debug</Configuration><Platform>Win32</Platform></ProjectConfiguration>
+    <ProjectConfiguration Include="Release|x64"><Configuration>Release</Configuration><Platform>x64</Platform></ProjectConfiguration>
+  </ItemGroup>
+  <PropertyGroup Condition="'$(Configuration)|$(Platform)'=='Debug|Win32'" Label="Configuration"><UseOfMfc>Dynamic</UseOfMfc></PropertyGroup>
+  <ItemDefinitionGroup Condition="%s">
+    <ClCompile><PreprocessorDefinitions>X;%%(PreprocessorDefinitions)</PreprocessorDefinitions><AdditionalIncludeDirectories>inc;$(ProjectDir)</AdditionalIncludeDirectories>
+    <LanguageStandard>stdcpp17</LanguageStandard></ClCompile>
+  </ItemDefinitionGroup>
+  <ItemGroup><ClCompile Include="a.c" /></ItemGroup>
+</Project>
+'''
+COND_TOK = ["a", "b", "1", "'x'", "'Debug'", "==", "!=", "(", ")", "!", "And", "Or", "?", ":", ",", "+", "-", "*", "/", "%", "<", ">", "<<", ">>", "=", "::", ".", "->", "~", "&",
+            "|", "^", "sizeof", "new", "return", "case", "throw", "{", "}", "$", "$(Configuration)", "$(Platform)", "HasTrailingSlash", "exists", "++", "...", "operator", "if", "\"s\"", "0x1", ";", "["]
+
+
+def gen_option_file(rng):
+    """(files, args, description) — inputs read by options: project files, library cfg, platform xml, addon json, suppression files"""
+    k = rng.random()
+    src = {"a.c": b"int f(int x){ int a[2]; return a[x]; }\n"}
+    if k < 0.2:
+        base = rng.choice([b'[{"directory":".","command":"gcc -DA=1 -Iinc -c a.c","file":"a.c"}]', b'[{"directory":".","arguments":["gcc","-c","a.c","-DX"],"file":"a.c","output":"a.o"}]'])
+        data = mutate_text(rng, base, JSON_TOK)
+        return (dict(src, **{"cdb.json": data}), ["-q", "--project=cdb.json"], "project-json")
+    if k < 0.35:
+        base = rng.choice([b'{"script":"misra.py","args":["--x"],"ctu":false}', b'{"script":"y2038.py","python":"python3","checkers":[{"a":"b"}],"executable":""}'])
+        data = mutate_text(rng, base, JSON_TOK)
+        return (dict(src, **{"ad.json": data}), ["-q", "--addon=ad.json", "a.c"], "addon-json")
+    if k < 0.5:
+        cond = " ".join(rng.choice(COND_TOK) for _ in range(rng.randrange(1, 8)))
+        if rng.random() < 0.5:
+            cond = "'$(Configuration)'=='Debug' " + rng.choice(["And", "Or", "", "=="]) + " " + cond
+        x = cond.replace("&", "&amp;").replace("<", "&lt;").replace(">", "&gt;").replace('"', "&quot;")
+        data = (VCX % x).encode()
+        if rng.random() < 0.3:
+            data = mutate_text(rng, data, XML_TOK)
+        return (dict(src, **{"p.vcxproj": data}), ["-q", "--project=p.vcxproj"], "vcxproj")
+    if k < 0.6:
+        base = open(os.path.join(REPO, "cfg", rng.choice(["avr.cfg", "zlib.cfg", "embedded_sql.cfg", "lua.cfg", "googletest.cfg"])), "rb").read()
+        data = mutate_text(rng, base, XML_TOK)
+        return (dict(src, **{"l.cfg": data}), ["-q", "--library=l.cfg", "--enable=all", "a.c"], "library-cfg")
+    if k < 0.7:
+        base = open(os.path.join(REPO, "platforms", rng.choice(["avr8.xml", "mips32.xml", "pic16.xml", "arm64-wchar_t4.xml"])), "rb").read()
+        data = mutate_text(rng, base, XML_TOK)
+        return (dict(src, **{"p.xml": data}), ["-q", "--platform=p.xml", "a.c"], "platform-xml")
+    if k < 0.8:
+        base = b'<?xml version="1.0"?>\n<suppressions>\n<suppress><id>arrayIndexOutOfBounds</id><fileName>a.c</fileName><lineNumber>1</lineNumber><symbolName>a</symbolName><hash>12</hash></suppress>\n</suppressions>\n'
+        data = mutate_text(rng, base, XML_TOK)
+        return (dict(src, **{"s.xml": data}), ["-q", "--suppress-xml=s.xml", "a.c"], "suppress-xml")
+    if k < 0.9:
+        base = b"arrayIndexOutOfBounds:a.c:1\nuninitvar\n*:b*.c\n// comment\nid:file:2:sym\n"
+        data = mutate_text(rng, base, [b":", b"*", b"?", b"\n", b"-1", b"99999999999999999999", b"[", b"\\", b" ", b"//", b"\x00"])
+        opt = rng.choice(["--suppressions-list=s.txt", "--exitcode-suppressions=s.txt"])
+        return (dict(src, **{"s.txt": data}), ["-q", opt, "a.c"], "suppressions-list")
+    base = b'<?xml version="1.0" encoding="UTF-8"?>\n<project version="1">\n<root name="."/>\n<builddir>b</builddir>\n<platform>unix64</platform>\n<libraries><library>posix</library></libraries>\n<defines><define name="A=1"/></defines>\n<paths><dir name="."/></paths>\n<exclude><path name="x/"/></exclude>\n<suppressions><suppression fileName="a.c" lineNumber="1">id</suppression></suppressions>\n<check-level-exhaustive/>\n<max-ctu-depth>2</max-ctu-depth>\n</project>\n'
+    data = mutate_text(rng, base, XML_TOK)
+    return (dict(src, **{"g.cppcheck": data}), ["-q", "--project=g.cppcheck"], "gui-project")
+
+
+def shipped_corpus():
+    out = []
+    for d, lang in (("fuzz-crash", "c++"), ("fuzz-crash_c", "c"), ("fuzz-timeout", "c++")):
+        for p in sorted(glob.glob(os.path.join(REPO, "test", "cli", d, "*"))):
+            if os.path.isfile(p):
+                out.append((d, lang, p))
+    return out
+
+
+# ---- driver -------------------------------------------------------------------------------------
+
+def cli_batch(ctx, res, exe, batch, timeout, variant, workers):
+    """batch: list of (files, args, desc, origin).  Evaluates P_impl on each; returns list of (case, outcome) failures."""
+    fails = []
+
+    def one(c):
+        files, args, desc, origin = c
+        o = run_case(ctx, exe, files, args, timeout)
+        if o["kind"] == "timeout":
+            o2 = run_case(ctx, exe, files, args, timeout * 3)      # the machine is shared: confirm with a generous limit
+            if o2["kind"] != "timeout":
+                o = o2
+            else:
+                o["confirmed_timeout_s"] = timeout * 3
+        return c, o
+    with concurrent.futures.ThreadPoolExecutor(max_workers=workers) as ex:
+        for c, o in ex.map(one, batch):
+            files, args, desc, origin = c
+            canon = hashlib.sha1(json.dumps([hexfiles(files), args]).encode()).hexdigest()
+            nontriv = origin != "shipped" and "error: unrecognized command line option" not in o["stdout"]
+            res.case("cli|" + canon, nontriv, dict(tie="cli:" + variant, op="%s %s" % (desc, " ".join(args))[:200], impl="%s rc=%s %.1fs" % (o["kind"], o["rc"], o["dt"]), model="P_impl: normal status, no sanitizer report, no time-out") if len(res.samples) < 10 else None)
+            res.count("origin:" + origin)
+            res.count("outcome:" + o["kind"])
+            if o["kind"] != "ok":
+                fails.append((c, o))
+    return fails
+
+
+def report_failures(ctx, res, fails, variant):
+    for (files, args, desc, origin), o in fails:
+        key = attribute(files, args, o)
+        what = "cppcheck (%s build) terminated abnormally: %s %s on %s [%s]; args: %s; stderr tail: %s" % (
+            variant, o["kind"], o.get("detail", ""), desc, origin, " ".join(args), o["stderr"][-300:].replace("\n", " | "))
+        res.violation(what, dict(kind="cli", variant=variant, args=args, files=hexfiles(files), outcome=dict(kind=o["kind"], detail=o.get("detail", ""), rc=o["rc"]),
+                                 replay_cmd="./check.py C13 --replay <this file>"), concrete=True, key=key)
+
+
+def run(ctx, res):
+    rng = ctx.rng
+    thorough = ctx.tier == "thorough"
+    # ---------- (a) translator + theorems -------------------------------------------------------------
+    M, cl = None, []
+    try:
+        M, cl = translate(ctx)
+        res.oblig("T:extraction(clang-ast)", True, "translation", json.dumps(M.stats))
+        res.extra["funnel_table"] = M.stats
+    except Unrecognised as ex:
+        res.oblig("T:extraction(clang-ast)", False, "translation", "unrecognised shape / extractor failure: %s" % ex)
+    core.prove(ctx, res, MODULES, THEOREMS)
+    new_alarms = []
+    if M is not None:
+        res.extra["funnels"] = [dict(name=f["name"], handlers=["%s -> %s" % h for h in f["handlers"]]) for f in M.funnels]
+        res.extra["guard_kinds"] = GUARD_KINDS
+        nf = no = 0
+        used_findings = set()
+        for c in cl:
+            a = c["alarm"]
+            chain = " <- ".join(M.fn[f]["name"].split("(")[0] or "(anonymous)" for f in a["path"])
+            if c["cls"] == "new":
+                new_alarms.append((a, chain))
+            elif c["cls"] == "open":
+                no += 1
+                res.assumptions.append("open alarm %s (%s at %s): %s" % (a["key"], a["site"]["what"], rel(a["site"]["loc"]), c["rule"]["reason"]))
+            else:
+                nf += 1
+                used_findings.add(c["rule"]["finding"])
+        res.extra["alarms"] = dict(total=len(cl), findings=nf, open=no, new=len(new_alarms))
+        for a, chain in new_alarms[:40]:
+            res.oblig("funnel:unclassified-alarm:" + a["key"], False, "translation",
+                      "an exception of type %s raised by `%s` at %s can leave main uncaught along: %s" % (a["ty"], a["site"]["what"], rel(a["site"]["loc"]), chain))
+        res.oblig("funnel:every-alarm-guarded-finding-or-open", not new_alarms, "translation",
+                  "" if not new_alarms else "%d alarm(s) are neither guarded, nor demonstrated findings, nor listed open assumptions" % len(new_alarms))
+        res.extra["finding_keys_with_alarms"] = sorted(used_findings)
+    # ---------- (b) totality ----------------------------------------------------------------------------
+    totality(ctx, res)
+    # ---------- (c) the real binary -----------------------------------------------------------------------
+    variant = "o1"
+    if thorough:
+        try:
+            ctx.build_repo("asan")
+            variant = "asan"
+        except core.CheckBroken as ex:
+            res.oblig("build:asan-variant", False, "machinery", str(ex))
+    exe = private_bin(ctx, variant)
+    tmo = 120 if variant == "asan" else 25
+    workers = 6 if thorough else 4
+    # closed-run guards: input-free paths are executed
+    if M is not None:
+        for (crn, cen, opts) in M.closed_runs:
+            o = run_case(ctx, exe, {}, list(opts), tmo)
+            res.oblig("guard:closed-run:" + " ".join(opts), o["kind"] == "ok", "guard", "" if o["kind"] == "ok" else json.dumps(o)[:600])
+    # corpus of witnesses: every listed finding must still reproduce (then it is reported as known finding), otherwise the entry is stale
+    cases = load_cases()
+    corpus_fail = []
+    for c in cases:
+        files = dict((k, v.encode("latin-1")) for k, v in c["files"].items())
+        o = run_case(ctx, exe, files, c["args"], tmo)
+        res.case("corpus|" + c["name"], True, dict(tie="corpus", op=c["name"], impl="%s %s" % (o["kind"], o.get("detail", "")), model="finding " + str(c.get("finding"))))
+        res.count("origin:corpus")
+        if o["kind"] != "ok":
+            key = attribute(files, c["args"], o)
+            if key != c.get("finding"):
+                key = None if key is None else key
+            corpus_fail.append(((files, c["args"], "corpus:" + c["name"], "corpus"), o))
+            res.extra.setdefault("witnesses_reproduced", []).append(c["name"])
+        else:
+            res.extra.setdefault("witnesses_no_longer_failing", []).append(c["name"])
+    report_failures(ctx, res, corpus_fail, variant)
+    # shipped fuzz corpus + generated inputs
+    seeds = source_seeds()
+    ship = shipped_corpus()
+    if not thorough:
+        ship = rng.sample(ship, min(14, len(ship)))
+    batch = []
+    for d, lang, p in ship:
+        batch.append(({os.path.basename(p): open(p, "rb").read()}, ["-q", "--language=" + lang, "--enable=all", "--inconclusive", os.path.basename(p)], d + "/" + os.path.basename(p), "shipped"))
+    n_src = 700 if thorough else 26
+    n_opt = 500 if thorough else 22
+    for _ in range(n_src):
+        name, data, lang, desc = gen_source(rng, seeds)
+        batch.append(({name: data}, gen_options(rng, lang) + [name], desc, "gen-source"))
+    for _ in range(n_opt):
+        files, args, desc = gen_option_file(rng)
+        batch.append((files, args, desc, "gen-option-file"))
+    fails = cli_batch(ctx, res, exe, batch, tmo, variant, workers)
+    report_failures(ctx, res, fails, variant)
+    res.extra["cli_variant"] = variant
+    res.extra["cli_cases"] = len(batch) + len(cases)
+    # ---------- violation search: an alarm nobody accounts for --------------------------------------------
+    if new_alarms and not any(v["concrete"] and v.get("key") is None for v in res.violations):
+        search(ctx, res, exe, variant, new_alarms, seeds, tmo)
+
+
+def search(ctx, res, exe, variant, new_alarms, seeds, tmo):
+    """look for an input that terminates the real binary with one of the unaccounted exception types"""
+    rng = ctx.rng
+    want = set(a["ty"] for a, _ in new_alarms)
+    deadline = time.time() + (420 if ctx.tier == "thorough" else 75)
+    n = 0
+    while time.time() < deadline:
+        batch = []
+        for _ in range(24):
+            if rng.random() < 0.5:
+                name, data, lang, desc = gen_source(rng, seeds)
+                batch.append(({name: data}, gen_options(rng, lang) + [name], desc, "search-source"))
+            else:
+                files, args, desc = gen_option_file(rng)
+                batch.append((files, args, desc, "search-option-file"))
+        n += len(batch)
+        fails = cli_batch(ctx, res, exe, batch, tmo, variant, 6)
+        hit = [(c, o) for c, o in fails if attribute(c[0], c[1], o) is None]
+        if hit:
+            report_failures(ctx, res, hit, variant)
+            break
+    res.extra["search_cases"] = n
+    res.extra["search_for_types"] = sorted(want)
+
+
+def replay(ctx, res, rp):
+    if rp.get("kind") != "cli":
+        print("replay: this replay file names undischarged obligations only (no concrete input); re-run ./check.py C13")
+        return 1
+    variant = rp.get("variant", "o1")
+    if variant != "o1":
+        ctx.build_repo(variant)
+    exe = private_bin(ctx, variant)
+    files = dict((k, bytes.fromhex(v)) for k, v in rp["files"].items())
+    o = run_case(ctx, exe, files, rp["args"], 120 if variant == "asan" else 25)
+    print("replay: %s %s rc=%s (%.1fs)" % (o["kind"], o.get("detail", ""), o["rc"], o["dt"]))
+    if o["kind"] != "ok":
+        print("VIOLATION property=C13 replay=(replayed) %s %s args=%s" % (o["kind"], o.get("detail", ""), " ".join(rp["args"])))
+        print("  stderr: " + o["stderr"][-400:].replace("\n", " | "))
+        return 1
+    return 0
